@@ -5,9 +5,11 @@
    pvalue, score of lightmotif/src/pwm/dist.rs) over a numeric carrier.  The theorems are
    about the exact-rational instance [QOps] (probabilities are rationals; every panic site
    of the code is a [Panic] result, so "[... = Ok d]" means: the code did not panic);
-   the [_refuted] lemmas are about the bit-exact binary64 instance [F64Ops] on inputs
-   given as f32 bit patterns, and are replayed on the implementation by
-   corpus/C11/witnesses.txt.
+   the [_refuted] lemma and the regression examples are about the bit-exact binary64
+   instance [F64Ops] on inputs given as f32 bit patterns, and are replayed on the
+   implementation by corpus/C11/witnesses.txt.  The model follows the code after the four
+   repairs of dist.rs (last table entry clipped, sf[0] below the minimum score, fractional
+   scale for ranges above 1000, f64 offset).
 
    Specification side (DistInst): [tail_exact m bg t] = P(S >= t) and
    [tailD data bg k] = P(D >= k), [pmfD] = P(D = k), for independent symbols drawn with
@@ -16,7 +18,7 @@
 From Coq Require Import List ZArith QArith Qround Qabs Bool Arith Lia.
 From LMBase Require Import Res ListX IEEE.
 From LMDist Require Import DistModel DistInst DistProofs DistConv DistTail DistBuild DistThms
-  DistDyadic DistCheckProofs DistStretch DistIEEE.
+  DistDyadic DistCheckProofs DistStretch DistIEEE DistTotal DistNaive.
 Import ListNotations.
 Local Open Scope Q_scope.
 
@@ -25,21 +27,20 @@ Local Open Scope Q_scope.
 (* ====================================================================== *)
 
 (* The tabulated survival function has M*1000+1 entries, is non-increasing and stays in
-   [0,1], for every matrix and every background of non-negative weights of total mass
-   at most 1 (without the mass bound the last entry is not clipped:
-   C11_last_entry_unclipped_refuted). *)
+   [0,1], for every matrix and every background of non-negative weights (whatever their
+   sum: every entry, the last one included, is clipped). *)
 Theorem C11_sf_monotone_range : forall m bg d,
-  bg_nonneg bg -> Qsum bg <= 1 -> build QOps m bg = Ok d ->
-  length (d_sf d) = (length m * cdf_range + 1)%nat /\ noninc Qle (d_sf d) /\ Forall Qin01 (d_sf d).
+  bg_nonneg bg -> build QOps m bg = Ok d ->
+  length (d_sf d) = (length m * cdf_range + 1)%nat /\ noninc Qle (d_sf d) /\ Forall Qin01 (d_sf d) /\
+  (0 <= d_min d)%Z.
 Proof. exact sf_monotone_range_Q. Qed.
 
 (* The same in IEEE binary64 arithmetic itself (Flocq): for every pdf of finite non-negative
-   doubles whose last entry is at most 1 the table computed by the survival loop with
-   round-to-nearest additions and min(.,1.0) is non-increasing, inside [0,1] and finite --
-   because rounding is monotone and keeps representable numbers: b <= min(fl(a+b), 1). *)
+   doubles the table computed by the survival loop with round-to-nearest additions and
+   min(.,1.0) is non-increasing, inside [0,1] and finite -- because rounding is monotone and
+   keeps representable numbers: b <= min(fl(a+b), 1). *)
 Theorem C11_sf_monotone_range_ieee : forall pdf sf mn mx,
   Forall (fun x => F64.is_finite x = true /\ F64.le F64.zero x = true) pdf ->
-  F64.le (last pdf F64.zero) f64_one = true ->
   survival F64Ops pdf = Ok (sf, mn, mx) ->
   length sf = length pdf /\ noninc f64_leP sf /\ Forall (in01 F64Ops f64_leP) sf /\
   Forall (fun x => F64.is_finite x = true) sf.
@@ -58,9 +59,17 @@ Proof. exact discretisation_error_Q. Qed.
 (* p-values are non-increasing in the score (all scores, including below the minimum and
    above the maximum). *)
 Theorem C11_pvalue_monotone : forall m bg d s1 s2 p1 p2,
-  bg_nonneg bg -> Qsum bg <= 1 -> build QOps m bg = Ok d -> s1 <= s2 ->
+  bg_nonneg bg -> build QOps m bg = Ok d -> s1 <= s2 ->
   d_pvalue QOps d s1 = Ok p1 -> d_pvalue QOps d s2 = Ok p2 -> p2 <= p1.
 Proof. exact pvalue_monotone_Q. Qed.
+
+(* inside the domain (rows as long as the background, at least one finite cell) no panic
+   site is reached: the conditional theorems are about every such input *)
+Theorem C11_build_total : forall m bg,
+  Forall (fun row : list (cell Q) => length row = length bg) m ->
+  finite_cells QOps m <> [] ->
+  exists d, build QOps m bg = Ok d.
+Proof. exact build_Q_total. Qed.
 
 (* ====================================================================== *)
 (* Stretch                                                                *)
@@ -83,13 +92,13 @@ Theorem C11_sf_is_tail : forall m bg d,
   forall j, (j < length (d_sf d))%nat -> nth j (d_sf d) 0 == tailD (d_data d) bg (Z.of_nat j).
 Proof. intros m bg d Hbg Hm H. exact (proj1 (proj2 (build_Q_table m bg d Hbg Hm H))). Qed.
 
-(* P(S >= s + d) <= pvalue(s) <= P(S >= s - d), d = (M/2 + 1) discretisation steps, when
-   one step is finite (scale > 0, i.e. the finite cells span at most 1000), the weights of
-   the non-skipped symbols of every row sum to 1, and offset and table length fit i32. *)
+(* P(S >= s + d) <= pvalue(s) <= P(S >= s - d), d = (M/2 + 1) discretisation steps, for
+   non-negative weights of total mass at most 1 (wildcard mass allowed) and a table length
+   inside i32. *)
 Theorem C11_pvalue_brackets_exact : forall m bg d offset scale s p,
-  bg_nonneg bg -> Qsum bg <= 1 -> Forall (fun row => row_mass bg row == 1) m ->
-  build QOps m bg = Ok d -> stage_a QOps m = Ok (offset, scale) -> 0 < scale ->
-  in_i32 (Qfloor offset) = true -> (Z.of_nat (length m) * 1000 < i32_max)%Z ->
+  bg_nonneg bg -> Qsum bg <= 1 ->
+  build QOps m bg = Ok d -> stage_a QOps m = Ok (offset, scale) ->
+  (Z.of_nat (length m) * 1000 < i32_max)%Z ->
   d_pvalue QOps d s = Ok p ->
   let dd := (inject_Z (Z.of_nat (length m)) / 2 + 1) / scale in
   tail_exact m bg (s + dd) <= p /\ p <= tail_exact m bg (s - dd).
@@ -97,11 +106,9 @@ Proof. exact pvalue_brackets_exact_Q. Qed.
 
 (* Converting a p-value in (0,1) to a score and back never yields a larger p-value (exact
    arithmetic: unscale is exact; for the f32 unscale of the code see
-   C11_unscale_inexact_refuted; without total mass 1: C11_wildcard_mass_refuted; with
-   scale = 0: C11_scale_zero_refuted). *)
-Theorem C11_score_pvalue_roundtrip : forall m bg d offset scale p s q,
-  bg_nonneg bg -> Qsum bg <= 1 -> Forall (fun row => row_mass bg row == 1) m ->
-  build QOps m bg = Ok d -> stage_a QOps m = Ok (offset, scale) -> 0 < scale ->
+   C11_unscale_inexact_refuted). *)
+Theorem C11_score_pvalue_roundtrip : forall m bg d p s q,
+  bg_nonneg bg -> Qsum bg <= 1 -> build QOps m bg = Ok d ->
   (Z.of_nat (length m) * 1000 < i32_max)%Z ->
   0 < p -> p < 1 ->
   d_score QOps d p = Ok s -> d_pvalue QOps d s = Ok q -> q <= p.
@@ -135,50 +142,24 @@ Theorem C11_checker_tails : forall (m : list (list F64.t)) (bg : list F64.t),
   forall t, tail_exact (c11_qm m) (c11_qbg bg) t == tail_exact (map (map f64_cell) m) (map f64_to_Q bg) t.
 Proof. exact c11_tail_values. Qed.
 
+(* The model's formulation of the inner loop of the convolution is the Rust loop
+     for k in 0..=max { let old = pdf_old[k]; if old != 0.0 { pdf_new[k + s] += old * b } }
+   rendered with functional updates ([naive_k]), for every numeric carrier -- so the binary64
+   additions happen in the same order on the same operands (index out of bounds = Panic 3). *)
+Theorem C11_kloop_is_rust_loop : forall (T : Type) (N : NumOps T) old maxk s b new,
+  (S maxk <= length old)%nat -> (0 <= s)%Z -> s <> i32_min ->
+  add_symbol N old maxk s b new = naive_k N old (Z.to_nat s) b (seq 0 (S maxk)) new.
+Proof. exact @add_symbol_naive_eq. Qed.
+
 (* ====================================================================== *)
-(* Known findings: the full-strength statements are false of the bit-exact *)
-(* model on these inputs (f32 bit patterns; 4286578688 = -inf).            *)
+(* Known finding: the round trip is false of the bit-exact model (f32      *)
+(* unscale); inputs are f32 bit patterns, 4286578688 = -inf.               *)
 (* ====================================================================== *)
 
 Ltac conj_all := match goal with |- _ /\ _ => split; [|conj_all] | _ => idtac end.
 
 Definition ninf32 : Z := 4286578688%Z.
 Definition bg_uniform32 : list Z := [1048576000; 1048576000; 1048576000; 1048576000; 0]%Z.
-
-(* F12: a background with wildcard mass and a -inf wildcard column: pvalue below the
-   minimum is the literal 1.0 although the exact tail P(S >= s - d) is 7/8. *)
-Lemma C11_wildcard_mass_refuted :
-  exists (m : list (list Z)) (bg : list Z) (s : Z),
-    c11_in_scope (map (map f32_val) m) (map f32_val bg) = true /\
-    bg_new_ok (map F32.of_bits bg) = true /\
-    match f64_build (map (map f32_cell) m) (map f32_val bg) with
-    | Ok d => match f64_pvalue d (f32_val s) with Ok p => F64.eq p f64_one | _ => false end
-    | _ => false
-    end = true /\
-    q_stage_a (c11_qm (map (map f32_val) m)) = Ok (0, 333) /\
-    tail_exact (c11_qm (map (map f32_val) m)) (c11_qbg (map f32_val bg))
-       (f64_to_Q (f32_val s) - (inject_Z 1 / 2 + 1) / 333) == 7 # 8.
-Proof.
-  exists [[0; 1065353216; 1073741824; 1077936128; ninf32]]%Z,
-         [1048576000; 1048576000; 1048576000; 1040187392; 1040187392]%Z, 3231711232%Z.
-  conj_all; vm_compute; reflexivity.
-Qed.
-
-(* finite cells spanning more than 1000: scale = 0, score(0.5) is not a number the table
-   can answer and pvalue(score(0.5)) = 1.0 > 0.5 *)
-Lemma C11_scale_zero_refuted :
-  exists (m : list (list Z)) (bg : list Z) (p : Z),
-    c11_in_scope (map (map f32_val) m) (map f32_val bg) = true /\
-    bg_new_ok (map F32.of_bits bg) = true /\
-    in_open01 F64Ops (F64.of_bits p) = true /\
-    match f64_build (map (map f32_cell) m) (map f32_val bg) with
-    | Ok d => match f64_roundtrip d (F64.of_bits p) with Ok r => F64.lt (F64.of_bits p) r | _ => false end
-    | _ => false
-    end = true.
-Proof.
-  exists [[3292233728; 0; 1092616192; 1144750080; ninf32]]%Z, bg_uniform32, 4602678819172646912%Z.
-  conj_all; vm_compute; reflexivity.
-Qed.
 
 (* cells in [4096, 4096.001], M = 2: one step (0.001) is below the f32 spacing at 8192, so
    scale(unscale(i)) <> i and pvalue(score(0.5)) = 0.5625 > 0.5 *)
@@ -197,35 +178,55 @@ Proof.
   conj_all; vm_compute; reflexivity.
 Qed.
 
-(* cells near 3e9, M = 2: `w * self.offset` overflows i32 (panic site 5) in pvalue *)
-Lemma C11_offset_i32_refuted :
-  exists (m : list (list Z)) (bg : list Z) (s : Z),
-    c11_in_scope (map (map f32_val) m) (map f32_val bg) = true /\
-    bg_new_ok (map F32.of_bits bg) = true /\
-    match f64_build (map (map f32_cell) m) (map f32_val bg) with
-    | Ok d => match f64_pvalue d (f32_val s) with Panic 5 => true | _ => false end
-    | _ => false
-    end = true.
-Proof.
-  exists [[1328730206; 1328730208; 1328730210; 1328730207; ninf32];
-          [1328730206; 1328730208; 1328730210; 1328730207; ninf32]]%Z, bg_uniform32, 1337118814%Z.
-  conj_all; vm_compute; reflexivity.
-Qed.
+(* ---------- regression examples: the four repaired defects, on the bit-exact model ---------- *)
 
-(* constant matrix, background 0.33333334 x 3 (accepted by Background::new: the f32 sum is
-   1.0, the real sum is above 1): the last table entry is not clipped and exceeds 1 *)
-Lemma C11_last_entry_unclipped_refuted :
-  exists (m : list (list Z)) (bg : list Z),
-    c11_in_scope (map (map f32_val) m) (map f32_val bg) = true /\
-    bg_new_ok (map F32.of_bits bg) = true /\
-    match f64_build (map (map f32_cell) m) (map f32_val bg) with
-    | Ok d => F64.lt f64_one (last (d_sf d) F64.zero)
-    | _ => false
-    end = true.
-Proof.
-  exists [[0; 0; 0; 0; ninf32]; [0; 0; 0; 0; ninf32]]%Z, [1051372203; 1051372203; 1051372203; 0; 0]%Z.
-  conj_all; vm_compute; reflexivity.
-Qed.
+(* background with wildcard mass 1/8, -inf wildcard column: pvalue(-5.0) is the tabulated
+   mass 7/8 (was the literal 1.0), equal to the exact tail *)
+Example reg_wildcard_mass :
+  let m := [[0; 1065353216; 1073741824; 1077936128; ninf32]]%Z in
+  let bg := [1048576000; 1048576000; 1048576000; 1040187392; 1040187392]%Z in
+  bg_new_ok (map F32.of_bits bg) = true /\
+  match f64_build (map (map f32_cell) m) (map f32_val bg) with
+  | Ok d => match f64_pvalue d (f32_val 3231711232) with Ok p => F64.to_bits p | _ => 0%Z end
+  | _ => 0%Z
+  end = 4606056518893174784%Z /\
+  tail_exact (c11_qm (map (map f32_val) m)) (c11_qbg (map f32_val bg))
+     (f64_to_Q (f32_val 3231711232) - (inject_Z 1 / 2 + 1) / 333) == 7 # 8.
+Proof. cbv zeta. conj_all; vm_compute; reflexivity. Qed.
+
+(* finite cells spanning 1500 > 1000: fractional scale 2/3 (was 0), the round trip of 0.5 holds *)
+Example reg_scale_fraction :
+  let m := [[3292233728; 0; 1092616192; 1144750080; ninf32]]%Z in
+  match q_stage_a (c11_qm (map (map f32_val) m)) with
+  | Ok (o, sc) => Qeq_bool o (-750) && Qeq_bool sc (2 # 3) | _ => false end = true /\
+  match f64_build (map (map f32_cell) m) (map f32_val bg_uniform32) with
+  | Ok d => match f64_roundtrip d (F64.of_bits 4602678819172646912) with
+            | Ok r => F64.le r (F64.of_bits 4602678819172646912) | _ => false end
+  | _ => false
+  end = true.
+Proof. cbv zeta. conj_all; vm_compute; reflexivity. Qed.
+
+(* cells near 3e9, M = 2: pvalue answers (was: i32 overflow panic) *)
+Example reg_offset_f64 :
+  let m := [[1328730206; 1328730208; 1328730210; 1328730207; ninf32];
+            [1328730206; 1328730208; 1328730210; 1328730207; ninf32]]%Z in
+  match f64_build (map (map f32_cell) m) (map f32_val bg_uniform32) with
+  | Ok d => match f64_pvalue d (f32_val 1337118814) with Ok p => F64.le p f64_one | _ => false end
+  | _ => false
+  end = true.
+Proof. cbv zeta. vm_compute. reflexivity. Qed.
+
+(* constant matrix, background 0.33333334 x 3 (f32 sum 1.0, real sum above 1): the last
+   table entry is clipped to exactly 1.0 (was 1.00000006) *)
+Example reg_last_entry_clipped :
+  let m := [[0; 0; 0; 0; ninf32]; [0; 0; 0; 0; ninf32]]%Z in
+  let bg := [1051372203; 1051372203; 1051372203; 0; 0]%Z in
+  bg_new_ok (map F32.of_bits bg) = true /\
+  match f64_build (map (map f32_cell) m) (map f32_val bg) with
+  | Ok d => F64.to_bits (last (d_sf d) F64.zero)
+  | _ => 0%Z
+  end = 4607182418800017408%Z.
+Proof. cbv zeta. conj_all; vm_compute; reflexivity. Qed.
 
 (* ====================================================================== *)
 (* Statement pins                                                          *)
@@ -234,24 +235,24 @@ Qed.
 Check (eq_refl : cdf_range = 1000%nat).
 
 Check C11_sf_monotone_range : forall m bg d,
-  bg_nonneg bg -> Qsum bg <= 1 -> build QOps m bg = Ok d ->
-  length (d_sf d) = (length m * cdf_range + 1)%nat /\ noninc Qle (d_sf d) /\ Forall Qin01 (d_sf d).
+  bg_nonneg bg -> build QOps m bg = Ok d ->
+  length (d_sf d) = (length m * cdf_range + 1)%nat /\ noninc Qle (d_sf d) /\ Forall Qin01 (d_sf d) /\
+  (0 <= d_min d)%Z.
 
 Check C11_pvalue_monotone : forall m bg d s1 s2 p1 p2,
-  bg_nonneg bg -> Qsum bg <= 1 -> build QOps m bg = Ok d -> s1 <= s2 ->
+  bg_nonneg bg -> build QOps m bg = Ok d -> s1 <= s2 ->
   d_pvalue QOps d s1 = Ok p1 -> d_pvalue QOps d s2 = Ok p2 -> p2 <= p1.
 
 Check C11_pvalue_brackets_exact : forall m bg d offset scale s p,
-  bg_nonneg bg -> Qsum bg <= 1 -> Forall (fun row => row_mass bg row == 1) m ->
-  build QOps m bg = Ok d -> stage_a QOps m = Ok (offset, scale) -> 0 < scale ->
-  in_i32 (Qfloor offset) = true -> (Z.of_nat (length m) * 1000 < i32_max)%Z ->
+  bg_nonneg bg -> Qsum bg <= 1 ->
+  build QOps m bg = Ok d -> stage_a QOps m = Ok (offset, scale) ->
+  (Z.of_nat (length m) * 1000 < i32_max)%Z ->
   d_pvalue QOps d s = Ok p ->
   let dd := (inject_Z (Z.of_nat (length m)) / 2 + 1) / scale in
   tail_exact m bg (s + dd) <= p /\ p <= tail_exact m bg (s - dd).
 
-Check C11_score_pvalue_roundtrip : forall m bg d offset scale p s q,
-  bg_nonneg bg -> Qsum bg <= 1 -> Forall (fun row => row_mass bg row == 1) m ->
-  build QOps m bg = Ok d -> stage_a QOps m = Ok (offset, scale) -> 0 < scale ->
+Check C11_score_pvalue_roundtrip : forall m bg d p s q,
+  bg_nonneg bg -> Qsum bg <= 1 -> build QOps m bg = Ok d ->
   (Z.of_nat (length m) * 1000 < i32_max)%Z ->
   0 < p -> p < 1 ->
   d_score QOps d p = Ok s -> d_pvalue QOps d s = Ok q -> q <= p.
@@ -266,11 +267,10 @@ Check check_C11_sound : forall m bg sf pv br rt,
 Definition ex_m : list (list (cell Q)) := [[CFin 0; CFin 1; CFin 2; CFin 3; CNInf]].
 Definition ex_bg : list Q := [1 # 4; 1 # 4; 1 # 4; 1 # 4; 0].
 
-Example ex_hyps : bg_nonneg ex_bg /\ Qsum ex_bg <= 1 /\ Forall (fun row => row_mass ex_bg row == 1) ex_m.
+Example ex_hyps : bg_nonneg ex_bg /\ Qsum ex_bg <= 1.
 Proof.
   split; [unfold bg_nonneg, ex_bg; repeat (apply Forall_cons; [vm_compute; discriminate|]); apply Forall_nil|].
-  split; [vm_compute; discriminate|].
-  apply Forall_cons; [vm_compute; reflexivity|apply Forall_nil].
+  vm_compute; discriminate.
 Qed.
 
 Example ex_build :
@@ -281,8 +281,8 @@ Example ex_build :
   end.
 Proof. vm_compute. conj_all; reflexivity. Qed.
 
-Example ex_stage_a : stage_a QOps ex_m = Ok (0, 333) /\ in_i32 (Qfloor 0) = true.
-Proof. split; vm_compute; reflexivity. Qed.
+Example ex_stage_a : stage_a QOps ex_m = Ok (0, 333).
+Proof. vm_compute. reflexivity. Qed.
 
 (* pvalue(1) = P(D >= 333) = 3/4 = P(S >= 1 - d), above P(S >= 1 + d) = 1/2 *)
 Example ex_pvalue :
@@ -321,7 +321,6 @@ Proof. cbv zeta. conj_all; vm_compute; reflexivity. Qed.
 Example ex_ieee_hyps :
   let q := F64.of_bits 4598175219545276416 in
   forallb (fun x => F64.is_finite x && F64.le F64.zero x) [q; q; q; q] = true /\
-  F64.le (last [q; q; q; q] F64.zero) f64_one = true /\
   match survival F64Ops [q; q; q; q] with
   | Ok (sf, mn, mx) => map F64.to_bits sf = [4607182418800017408; 4604930618986332160; 4602678819172646912; 4598175219545276416]%Z
   | _ => False
